@@ -838,7 +838,9 @@ func (s *Script) appendOp(o *op, left, right any) (pb *precBuf) {
 		pb.buf = append(pb.buf, ' ')
 		pb.buf = append(pb.buf, o.name...)
 		pb.buf = append(pb.buf, ' ')
-		pb.buf = s.appendValue(pb.buf, right, o.prec)
+		// Operators of the same precedence associate to the left when
+		// parsed so a right operand of equal precedence needs parentheses.
+		pb.buf = s.appendValue(pb.buf, right, o.prec-1)
 	}
 	return
 }
